@@ -115,12 +115,19 @@ def caddsub(p):
         Xim = comp(z[1], off + zo, w[1], wo)
     top = mx + 4
 
+    # known finding F3 (open): mpc_add_mpf / mpc_sub_mpf hand the imaginary part back unrounded.  With _known='F3' the
+    # obligation is weakened to exactly that behaviour (imaginary part returned untouched) so that any OTHER deviation in
+    # the same region is still reported as a violation.
+    f3 = p.get('_known') == 'F3' and real_rhs and not (subtract and entry in ('rop', 'rf'))
+
     def good(val, st):
         val = unwrap(val, st)
         if val is None:
             return False
         re, im = val
         asp = p.get('aspect', 'round')
+        if f3:
+            return [rounded_ok(re, Xre, base, prec, rnd, top, asp), z3.And([zt(a) == zt(b) for a, b in zip(im, z[1])])]
         return [rounded_ok(re, Xre, base, prec, rnd, top, asp), rounded_ok(im, Xim, base, prec, rnd, top, asp)]
     return finish(ob, ob.prove(outs, good))
 
@@ -158,7 +165,10 @@ def caddsub_concrete(p, m):
         zr, zi, wr, wi = wr, wi, zr, zi
     er, ei = (zr - wr, zi - wi) if subtract else (zr + wr, zi + wi)
     ok1, d1 = O.check_rounded(r[0], Fraction(er), prec, rnd, shift=E0)
-    ok2, d2 = O.check_rounded(r[1], Fraction(ei), prec, rnd, shift=E0)
+    if p.get('_known') == 'F3' and real_rhs and not (subtract and entry in ('rop', 'rf')):
+        ok2, d2 = tuple(r[1]) == tuple(z[1]), 'imaginary part %r is neither rounded nor the untouched operand %r' % (r[1], z[1])
+    else:
+        ok2, d2 = O.check_rounded(r[1], Fraction(ei), prec, rnd, shift=E0)
     return ok1 and ok2, ('re: ' + d1 if not ok1 else '') + (' im: ' + d2 if not ok2 else '')
 
 
